@@ -2778,7 +2778,9 @@ func (uconn *UConn) ApplyPreset(p *ClientHelloSpec) error {
 	uconn.HandshakeState.Hello = privateHello.getPublicPtr()
 	if clientKeySharePrivate != nil {
 		uconn.HandshakeState.State13.KeyShareKeys = clientKeySharePrivate.ToPublic()
-	} else {
+	} else if uconn.HandshakeState.State13.KeyShareKeys == nil {
+		// Key shares that already carry data are not regenerated below, so the
+		// private keys generated for them by a previous ApplyPreset must be kept.
 		uconn.HandshakeState.State13.KeyShareKeys = &KeySharePrivateKeys{}
 	}
 	uconn.echCtx = ech
